@@ -1033,7 +1033,10 @@ Definition adopt_step (lenient : bool) (t : list tev) (st : bool * bool) (m : li
     (* records abandoned by an adoption stay in the Persistence and are reported again: the
        no-warning clause is for a Persistence that was never tampered with *)
     (* an adoption that took the whole Persistence without a word makes it the client's own again *)
-    ((if (nwarn =? 0) && (fatal =? 0) then false else fst st, snd st), fatal_ok && warn_ok)
+    (* C16 "warn": every record that does not decode (the client identifier aside) is reported by
+       an adoption that goes through -- none is passed over in silence and left behind *)
+    let reported_ok := if fatal =? 0 then undecodable <=? nwarn else true in
+    ((if (nwarn =? 0) && (fatal =? 0) then false else fst st, snd st), fatal_ok && warn_ok && reported_ok)
   | TRet i OpRead (RetErr er) _ _ _ =>
     (* C16: after an adoption, connecting never fails on the session's own records ("gone missing",
        "record unavailable" are class-less errors), except when the client identifier record is unusable (F15) *)
